@@ -130,7 +130,7 @@ def check_ecgen(curve, kind, acc):
     if sysn:
         acc.observe("ECC.generate with randfunc consulted the process-wide RNG (result unaffected)")
     first_nb = ((n - 2).bit_length() + 7) // 8
-    acc.seen("classes", ("ECC.generate", curve, "first-attempt-accepted" if f1.total == first_nb else "rejected-%d" % (f1.total // first_nb - 1),
+    acc.seen("classes", ("ECC.generate", curve, "first-attempt-accepted" if f1.total == first_nb else "rejected-%d" % min(2, f1.total // first_nb - 1),
                          "dirty" in kind))
     acc.seen("configs", ("ecgen", curve, kind))
 
@@ -498,7 +498,7 @@ def check_bigrange(be, loname, k, delta, kind, incl, acc):
     if tw.count:
         acc.observe("Integer.random_range with randfunc consulted the process-wide RNG (result unaffected)")
     nb = (max(1, nm.bit_length()) + 7) // 8
-    acc.seen("classes", ("Integer.random_range/full-size", be, f1.total // nb - 1, "dirty" in kind, incl))
+    acc.seen("classes", ("Integer.random_range/full-size", be, min(2, f1.total // nb - 1), "dirty" in kind, incl))
     acc.seen("configs", ("bigrange", be, loname, k, delta, kind, incl))
 
 
